@@ -16,6 +16,14 @@ class TestLimit(BaseException):
     pass
 
 
+class Hang(BaseException):
+    """the strategy spent more than the watchdog time without finishing"""
+
+
+def _alarm(_sig, _frm):
+    raise Hang()
+
+
 class Clock:
     """replaces `lithium.strategies.time`: the time is a function of the tests run so far"""
 
@@ -24,11 +32,25 @@ class Clock:
         self.tests = 0
         self.reads = 0
 
-    def time(self):
+    def _now(self):
         self.reads += 1
         if not self.times:
             return 0
         return self.times[min(self.tests, len(self.times) - 1)]
+
+    # the three clocks of the `time` module have different epochs, as in reality: code that mixes
+    # them (deadline from one, check against another) must not look right under the scripted clock
+    def time(self):
+        return 1_000_000 + self._now()
+
+    def monotonic(self):
+        return 50 + self._now()
+
+    def perf_counter(self):
+        return 7 + self._now()
+
+    def sleep(self, _s):
+        return None
 
 
 def make_strategy(name, cfg):
@@ -78,9 +100,22 @@ def parse_desc(desc):
     return 9, 0, 0, 0
 
 
-def run_real(name, cfg, tc, decider, clock_times=None, max_tests=100000):
+def run_real(name, cfg, tc, decider, clock_times=None, max_tests=100000, watchdog=20.0):
     """decider(k, content_bytes) -> bool for the k-th test of the strategy (0-based)"""
+    import signal
+
     import lithium.strategies as S
+
+    old_handler = signal.signal(signal.SIGALRM, _alarm)
+    signal.setitimer(signal.ITIMER_REAL, watchdog)
+    try:
+        return _run_real(S, name, cfg, tc, decider, clock_times, max_tests)
+    finally:
+        signal.setitimer(signal.ITIMER_REAL, 0)
+        signal.signal(signal.SIGALRM, old_handler)
+
+
+def _run_real(S, name, cfg, tc, decider, clock_times, max_tests):
 
     st = make_strategy(name, cfg)
     clk = Clock(clock_times or [])
@@ -102,7 +137,7 @@ def run_real(name, cfg, tc, decider, clock_times=None, max_tests=100000):
 
         it.try_testcase = spy
         limit = cfg.get("stop_after")
-        start = clk.time() if limit is not None else None
+        start = (clk.times[0] if clk.times else 0) if limit is not None else None
         try:
             for attempt in it:
                 k = len(run.verdicts)
@@ -117,6 +152,8 @@ def run_real(name, cfg, tc, decider, clock_times=None, max_tests=100000):
                 it.feedback(v)
         except TestLimit:
             run.error = "test-limit"
+        except Hang:
+            run.error = "hang: the strategy did not finish (no test started for a long time)"
         except Exception as exc:  # pylint: disable=broad-except
             run.error = f"{type(exc).__name__}: {exc}"
         run.best = fields(it.testcase)
